@@ -34,7 +34,23 @@
 (*                      (TYPES_NODE_LEXICAL_SCOPE lacks AsyncFunctionDef)               *)
 (*   "copy_subexprs"  : the inserted die_if_unbearable call re-uses (hence re-evaluates) *)
 (*                      the annotation node and the target's base node (DESIGN 5, F8)   *)
-(* Mutant names plausible wrong designs that TLC must reject (non-vacuity).             *)
+(* Mutant names plausible wrong designs that TLC must reject (non-vacuity):             *)
+(*   no_pop_nested_class, class_body_checked, import_before_future, method_decorated,   *)
+(*   first_is_top (FIRST placed at the top), subscript_checked.                         *)
+(*                                                                                      *)
+(* Slices (bounded grammars; the driver chooses MaxNodes / MaxDepth per tier):          *)
+(*   "scope"  nesting of sync/async/unannotated defs, classes, a block, annotated       *)
+(*            assignment x: T = v; pep526 on/off                                        *)
+(*   "kinds"  every node kind: 4 targets x with/without value, 6 block kinds, import,   *)
+(*            expr; pep526 on/off; default and non-default configuration                *)
+(*   "kinds4" a thinner alphabet of the same, one node deeper                           *)
+(*   "deco"   existing decorator stacks over {p, h} x hostile import visible or not x    *)
+(*            3 x 3 placements                                                          *)
+(*   "prefix" docstring / __future__ prefix x (otherwise) empty modules                 *)
+(*   "given" / "replay"  trees handed in by the driver (the repository's claw data      *)
+(*            packages abstracted to this grammar; a stored case being replayed)        *)
+(* One JSON row per finished walk is printed when Emit: the program, the configuration, *)
+(* Rule's edits, the walk's edits, evaluation counts and the nearest scope of each node.*)
 EXTENDS Naturals, Sequences, FiniteSets, TLC, Json
 
 CONSTANTS Slice, MaxNodes, MaxDepth, Legacy, Mutant, Emit, Given
@@ -61,6 +77,10 @@ Targets    == {"name", "attr", "attrcall", "subscript"}
 BlockKinds == {"if", "for", "while", "try", "with", "match"}
 Places     == {"FIRST", "LAST", "LBH"}
 DecoStacks == {<<>>, <<"p">>, <<"h">>, <<"h", "p">>, <<"p", "h">>, <<"h", "h">>}
+
+(* "given": the trees come from the constant Given (real modules abstracted by the driver); *)
+(* "replay": the same, under every configuration                                           *)
+IsGiven == Slice \in {"given", "replay"}
 
 IsCont(n) == n.k \in {"func", "class", "block"}
 IsScopeNode(n) == n.k \in {"func", "class"}
@@ -207,7 +227,7 @@ GrowOK(n, dd) ==
     /\ n.k = "future" => dd = 1 /\ \A q \in Nodes(prog) : IsPrefixNode(prog[q])
 
 Grow(n, dd) ==
-    /\ pc = "build" /\ Slice # "given"
+    /\ pc = "build" /\ ~IsGiven
     /\ GrowOK(n, dd)
     /\ prog' = Append(prog, [n EXCEPT !.d = dd])
     /\ UNCHANGED <<pc, conf, i, scopes, edits, decided>>
@@ -309,7 +329,7 @@ Finish ==
     /\ UNCHANGED <<prog, conf, i, scopes, edits, decided>>
 
 Init ==
-    /\ IF Slice = "given" THEN prog \in Given ELSE prog = <<>>
+    /\ IF IsGiven THEN prog \in Given ELSE prog = <<>>
     /\ pc = "build" /\ conf = NoConf /\ i = 0 /\ scopes = <<>> /\ edits = {} /\ decided = FALSE
 
 Alphabet == SliceLeaves \cup SliceConts
